@@ -135,6 +135,9 @@ func tEq(a, b string) string {
 	if isBVLit(a) && isBVLit(b) {
 		return "false"
 	}
+	if isStrLitName(a) && isStrLitName(b) {
+		return "false" // distinct literal constants
+	}
 	if (a == "true" && b == "false") || (a == "false" && b == "true") {
 		return "false"
 	}
@@ -171,6 +174,20 @@ func tApp(f string, args ...string) string {
 		return f
 	}
 	return "(" + f + " " + strings.Join(args, " ") + ")"
+}
+
+func isStrLitName(a string) bool {
+	if a == "emptyStr" {
+		return true
+	}
+	if !strings.HasPrefix(a, "lit") || len(a) < 5 {
+		return false
+	}
+	i := 3
+	for i < len(a) && a[i] >= '0' && a[i] <= '9' {
+		i++
+	}
+	return i > 3 && i < len(a) && a[i] == '_' && !strings.ContainsAny(a, " ()")
 }
 
 func isBVLit(a string) bool { return strings.HasPrefix(a, "(_ bv") }
